@@ -1308,6 +1308,10 @@ def _rename_bnodes(T, rng):
         return T
     # valid N-Triples labels with '.', '-' and digits inside (never a trailing dot)
     pool = ["genid.1", "b-2", "a.b.c", "x9", "n.0-k", "B_7.q", "z-z.9"]
+    if rng.random() < 0.5:
+        # labels that differ only in leading / trailing underscores (PN_CHARS_U allows '_' as first character): an injective renaming
+        # must stay injective after whatever normalisation the readers apply
+        pool = ["x", "_x", "__x", "y", "_y", "x_", "_"]
     new = [pool[i] if i < len(pool) else "z%d.%d" % (i, i) for i in range(len(labels))]
     rng.shuffle(new)
     mp = dict(zip(labels, new))
@@ -1653,6 +1657,15 @@ def _extra_cases(pid, tier, rng, n_enum, n_rand):
             out.append({"pid": pid, "kind": "target-spelling", "origin": "target-spelling", "nt": U.to_nt(T), "classes": classes,
                         "spelling": spelling, "cfg": {"inverse_paths": True} if gi % 2 else {}, "t": (0, 0.5)[gi % 2]})
     if pid == "C10":
+        for gi in range(n_of(6)):                      # class IRIs whose local name holds further colons, next to the class named by its first segment
+            cls = [G.EX + "Sensor", G.EX + "Sensor:Temp", G.EX + "Kind:a:b"]
+            T = U.rand_graph(rng, n_nodes=rng.randint(4, 8), n_triples=rng.randint(6, 16), n_props=3, p_bnode=0.0, p_typed=0.9, max_types=1, classes=cls)
+            classes = list(cls); rng.shuffle(classes)
+            if gi % 3 == 0:
+                classes = classes[:2]
+            spelling = ["prefixed" if (gi + i) % 3 != 2 else rng.choice(("full", "bracketed")) for i in range(len(classes))]
+            out.append({"pid": pid, "kind": "target-spelling", "origin": "target-spelling-colon-local", "nt": U.to_nt(T), "classes": classes,
+                        "spelling": spelling, "cfg": {"inverse_paths": True} if gi % 2 else {}, "t": (0, 0.5)[gi % 2]})
         for gi in range(n_of(10)):                     # two Shapers, same prefixed class list, different binding of the prefix
             T = U.rand_graph(rng, n_nodes=rng.randint(4, 8), n_triples=rng.randint(6, 16), n_props=3, p_bnode=0.0, max_types=1,
                              p_typed=0.9, classes=[G.EX + "C", ALT + "C"])
@@ -1912,7 +1925,7 @@ EXTRA_RULES = {
            "giving one label to overlapping node sets (count = union); one Shaper walked through thresholds 0,.5,1/3,0,1,2/3,0,.51,1,0 "
            "against fresh Shapers",
     "C12": "; at t=0 and t=1 the printed keys equal the oracle's (nothing omitted / only features of all instances)",
-    "C09": "; blank-node relabelings use labels with '.', '-' and digits",
+    "C09": "; blank-node relabelings use labels with '.', '-' and digits, and labels that differ only in leading / trailing underscores",
     "C10": "; target-spelling family as in C02; two Shapers in one process with one prefix bound to two namespaces; selectors with "
            "prefixes that are initial segments of one another (wd/wdt, rdf/rdfs, empty prefix first); same-label items in fixed and "
            "JSON shape maps; two Shapers with the same selector text on different graphs",
